@@ -66,6 +66,7 @@ func run(c Case) (pbt.Result, error) {
 	res.Class("segs:%s", segBucket(nseg))
 	res.Count("moves", int64(m.Stats.Moves))
 	res.Count("copies", int64(m.Stats.Copies))
+	res.Count("reopens", int64(m.Stats.Reopens))
 	res.Count("overwrites", int64(m.Stats.Overwrites))
 
 	// serialisation paths
